@@ -31,12 +31,13 @@ def gen_cases(rng, tier):
         acyclic = rng.random() < 0.3
         mech = C07.gen_mech(rng, acyclic)
         lim = rng.choice([None, ["int", 1], ["int", 2], ["int", 3], ["frac", 1, 4], ["frac", 1, 8]])
-        probes = [[0, None], [0, ["int", 2]], [len(mech["states"]) - 1, rng.choice([None, ["int", 1], ["frac", 1, 4]])]]
+        probes = [[0, None], [0, ["int", 2]], [len(mech["states"]) - 1, rng.choice([None, ["int", 1], ["frac", 1, 4]])],
+                  [rng.randrange(len(mech["states"])), ["int", 0]]]
         calls = [[0, lim]] + probes
         if ec.oracle_calls(mech, [tuple(c) for c in calls], budget=4000) is None:
             continue
         cases.append({"kind": "fault", "mech": mech, "calls": calls, "pick": rng.randint(0, 10 ** 6),
-                      "with_fault": rng.random() < 0.85})
+                      "with_fault": rng.random() < 0.85, "base_exception": rng.random() < 0.4})
     return cases
 
 
@@ -47,7 +48,7 @@ def impl_run(case):
     # phase 1 (separate closure state, same interpreter): count the invocations of the first call
     _, ninv = ec.run_mech_impl(case["mech"], calls[:1])
     fault = (case["pick"] % ninv) if (case["with_fault"] and ninv > 0) else None
-    answers, total_inv = ec.run_mech_impl(case["mech"], calls, fault=fault)
+    answers, total_inv = ec.run_mech_impl(case["mech"], calls, fault=fault, base_exception=case.get("base_exception", False))
     ex = explode(H({1: 1, 2: 1}), limit=2)
     sub = H(4).substitute(lambda h, o: h if o == 4 else o, lambda h, o: h)
     from common import hist_items
